@@ -127,6 +127,13 @@ def tables_v(langs, used):
 
 
 
+# StepProofs.step_prog_correct has a premise over assignments of ANY length,
+# which no relation depending on a bit satisfies (vacuous); it is superseded
+# by StepProgProofs.step_prog_correct_len (premise at length n), the lemma
+# behind C13_step_through_program, and is no longer counted or cited
+SUPERSEDED = {'step_prog_correct'}
+
+
 def _count_theory_lemmas(ctx, names):
     """Lemmas of the hand-written proof files (already checked by the build
     of THEORIES) are obligations of this check too."""
@@ -134,6 +141,8 @@ def _count_theory_lemmas(ctx, names):
         rel = f'theories/L7Codegen/{nm}.v'
         with open(os.path.join(core.COQ, rel)) as f:
             found = core.theorem_names(f.read())
+        # superseded lemmas are not obligations of this check
+        found = [x for x in found if x not in SUPERSEDED]
         ctx.obligations += [f'{rel}:{x}' for x in found]
         ctx.discharged += len(found)
 
@@ -151,6 +160,10 @@ def prove(ctx):
                                'RenderProofs', 'BitsConverse',
                                'StepProgProofs'])
     ctx.extra['languages_table'] = langs
+    ctx.extra['superseded_lemmas'] = {
+        'theories/L7Codegen/StepProofs.v:step_prog_correct':
+        'vacuous premise (any-length assignments); replaced by '
+        'StepProgProofs.step_prog_correct_len'}
     ctx.extra['syntax_keys_used'] = used
     ctx.extra['translation'] = dict(
         sources=codegen_gen.SOURCES, functions=codegen_gen.FUNCTIONS,
